@@ -12,7 +12,7 @@ OPS = [
     "a <- [1, 2, 3]", "b <- a", "c <- [a, 4]", "a <- b", "a <- a", "b <- a + c", "a <- a + [0]", "APPEND(a, {v})", "APPEND(b, {v})",
     "INSERT(a, {i}, {v})", "DISPLAY(REMOVE(a, {i}))", "DISPLAY(REMOVE(b, 1))", "a[{i}] <- {v}", "b[1] <- {v}", "DISPLAY(a[{i}])",
     "DISPLAY(s[{i}])", "DISPLAY(LENGTH(a))", "DISPLAY(LENGTH(s))", "f(a)", "f(b)", "c[1][1] <- 7", "DISPLAY(c[1])", "a <- []",
-    "s <- s + \"é\"", "g(a, {i})", "b <- [a, a]", "a <- c[1]", "DISPLAY(a + b)",
+    "s <- s + \"é\"", "g(a, {i})", "b <- [a, a]", "a <- c[1]", "DISPLAY(a + b)", "b <- [] + a", "b <- a + []", "a <- [] + []",
 ]
 VALS = ["0", '"x"', "NULL", "[9]", "TRUE"]
 HEADER = ("PROCEDURE f(p) {\nAPPEND(p, 100)\np <- [0]\nAPPEND(p, 1)\n}\nPROCEDURE g(p, i) {\np[i] <- \"g\"\n}\n"
@@ -59,7 +59,8 @@ class PROP(PropCheck):
     def corpus(self):
         fixed = [["a <- [1, 2]", "b <- [3, 4]", "a <- b", "APPEND(a, 5)"], ["a <- a"], ["b <- [a, 1]", "a <- b"], ["DISPLAY(a[0])"],
                  ["INSERT(a, 0, 1)"], ["INSERT(a, 3, 1)", "INSERT(a, 5, 1)"], ["DISPLAY(REMOVE(a, 3))"], ["a[0.5] <- 1"],
-                 ["f(a)", "g(a, 1)", "g(a, 0)"], ["b <- a + a", "APPEND(b, 1)"], ["c[1][1] <- 7"], ["DISPLAY(s[3])", "DISPLAY(s[4])"]]
+                 ["f(a)", "g(a, 1)", "g(a, 0)"], ["b <- a + a", "APPEND(b, 1)"], ["b <- [] + a", "APPEND(b, 1)", "b[1] <- 9"],
+                 ["b <- a + []", "DISPLAY(REMOVE(b, 1))"], ["a <- []", "b <- a + a", "APPEND(b, 1)"], ["c[1][1] <- 7"], ["DISPLAY(s[3])", "DISPLAY(s[4])"]]
         return [Case(program(st), meta={"steps": st}, kind="corpus") for st in fixed]
 
     def cases(self, rng, tier, scale=1):
